@@ -375,3 +375,24 @@ def run(ctx) -> None:  # noqa: F811
         ctx.ok("R-STEPWISE", f"{f.qualname}:single-selection", f.where,
                "limits are applied in one selection (no step-by-step slicing)", nontrivial=False)
     _inner_run_c13(ctx)
+
+
+# ---- added after the seeded change C13-r3seed5: limits are defaulted with `is None`
+_inner_run_c13b = run
+
+
+def run(ctx) -> None:  # noqa: F811
+    from ..rules import nonedefault
+
+    ctx.rule("R-NONEDEFAULT", nonedefault.__doc__.split("\n\n", 1)[1] + "  Applied to PolarMeasurements.integrate / "
+             "integrate_radial / integrate_azimuthal and their helpers: a limit of exactly 0.0 (an edge at 0 rad of "
+             "rotated bins, an upper limit 0) is a legal bound, not 'no limit'")
+    k = ctx.repo.cls("abtem.measurements", "PolarMeasurements")
+    n = 0
+    NAMES = {"radial_limits", "azimuthal_limits", "limits", "inner", "outer", "limit", "lower", "upper"}
+    for defs in k.methods.values():
+        for f in defs:
+            n += nonedefault.check(ctx, "R-NONEDEFAULT", f, NAMES, "integration limit")
+    ctx.require(n >= 2, f"R-NONEDEFAULT examined only {n} methods of PolarMeasurements")
+    _inner_run_c13b(ctx)
+
